@@ -69,11 +69,14 @@ theorem cooCtorChecks_cases (a nd nc dim nr : Int) :
   all_goals simp
 
 /-- `GCXS.__init__`: the checks pass iff every extent is a non-negative integer, there is one value per index
-(one dimension and up) and — two dimensions and up — `indptr` has `rows + 1` entries, the first 0 and the last
-`len(indices)` -/
-theorem gcxsCtorChecks_ok_iff (shapeOk : Bool) (ndim nd ni np rows p0 pl : Int) :
-    Gen.gcxsCtorChecks 1 shapeOk ndim nd ni np rows p0 pl = .ok () ↔
-      shapeOk = true ∧ (1 ≤ ndim → nd = ni) ∧ (2 ≤ ndim → np = rows + 1 ∧ p0 = 0 ∧ pl = ni) := by
+(one dimension and up), — two dimensions and up — `indptr` has `rows + 1` entries, the first 0 and the last
+`len(indices)`, it does not decrease, and — when there are indices — the least and greatest index lie in
+`[0, cols)` (two dimensions and up) resp. `[0, shape[0])` (one dimension) -/
+theorem gcxsCtorChecks_ok_iff (shapeOk dec : Bool) (ndim sh0 nd ni np rows cols p0 pl imin imax : Int) :
+    Gen.gcxsCtorChecks 1 shapeOk ndim sh0 nd ni np rows cols p0 pl dec 1 imin imax = .ok () ↔
+      shapeOk = true ∧ (1 ≤ ndim → nd = ni)
+      ∧ (2 ≤ ndim → np = rows + 1 ∧ p0 = 0 ∧ pl = ni ∧ dec = false ∧ (ni ≠ 0 → 0 ≤ imin ∧ imax < cols))
+      ∧ (ndim = 1 → ni ≠ 0 → 0 ≤ imin ∧ imax < sh0) := by
   unfold Gen.gcxsCtorChecks
   dsimp only
   repeat' split
@@ -81,13 +84,77 @@ theorem gcxsCtorChecks_ok_iff (shapeOk : Bool) (ndim nd ni np rows p0 pl : Int) 
   all_goals omega
 
 /-- every failure of these checks is a ValueError -/
-theorem gcxsCtorChecks_cases (a : Int) (shapeOk : Bool) (ndim nd ni np rows p0 pl : Int) :
-    Gen.gcxsCtorChecks a shapeOk ndim nd ni np rows p0 pl = .ok ()
-      ∨ Gen.gcxsCtorChecks a shapeOk ndim nd ni np rows p0 pl = .error .value := by
+theorem gcxsCtorChecks_cases (a b : Int) (shapeOk dec : Bool) (ndim sh0 nd ni np rows cols p0 pl imin imax : Int) :
+    Gen.gcxsCtorChecks a shapeOk ndim sh0 nd ni np rows cols p0 pl dec b imin imax = .ok ()
+      ∨ Gen.gcxsCtorChecks a shapeOk ndim sh0 nd ni np rows cols p0 pl dec b imin imax = .error .value := by
   unfold Gen.gcxsCtorChecks
   dsimp only
   repeat' split
   all_goals simp
+
+theorem gcxsCtorChecksHead_ok_iff (shapeOk : Bool) (ndim nd ni : Int) :
+    Gen.gcxsCtorChecksHead 1 shapeOk ndim nd ni = .ok () ↔ shapeOk = true ∧ (1 ≤ ndim → nd = ni) := by
+  unfold Gen.gcxsCtorChecksHead
+  repeat' split
+  all_goals simp_all
+  all_goals omega
+
+theorem gcxsCtorChecksHead_cases (a : Int) (shapeOk : Bool) (ndim nd ni : Int) :
+    Gen.gcxsCtorChecksHead a shapeOk ndim nd ni = .ok () ∨ Gen.gcxsCtorChecksHead a shapeOk ndim nd ni = .error .value := by
+  unfold Gen.gcxsCtorChecksHead
+  repeat' split
+  all_goals simp
+
+/-! ### the list primitives the generated checks are fed with -/
+
+theorem le_listMin_iff (c : Int) : ∀ (i : List Int), i ≠ [] → (c ≤ listMin i ↔ ∀ x ∈ i, c ≤ x)
+  | [], h => absurd rfl h
+  | [a], _ => by simp [listMin]
+  | a :: b :: rest, _ => by
+    have ih := le_listMin_iff c (b :: rest) (by simp)
+    rw [listMin, Int.le_min, ih]
+    · simp
+    · simp
+
+theorem listMax_lt_iff (c : Int) : ∀ (i : List Int), i ≠ [] → (listMax i < c ↔ ∀ x ∈ i, x < c)
+  | [], h => absurd rfl h
+  | [a], _ => by simp [listMax]
+  | a :: b :: rest, _ => by
+    have ih := listMax_lt_iff c (b :: rest) (by simp)
+    rw [listMax, Int.max_lt, ih]
+    · simp
+    · simp
+
+/-- the guarded range test on the least and greatest index says that every index is in range -/
+theorem minmax_inRange (i : List Int) (n : Int) :
+    ((i.length : Int) ≠ 0 → 0 ≤ listMin i ∧ listMax i < n) ↔ InRange i n := by
+  unfold InRange
+  cases i with
+  | nil => simp
+  | cons a as =>
+    have hne : (a :: as) ≠ [] := by simp
+    have hl : ((a :: as).length : Int) ≠ 0 := by simp; omega
+    rw [le_listMin_iff 0 _ hne, listMax_lt_iff n _ hne]
+    constructor
+    · intro h x hx; exact ⟨(h hl).1 x hx, (h hl).2 x hx⟩
+    · intro h _; exact ⟨fun x hx => (h x hx).1, fun x hx => (h x hx).2⟩
+
+/-- `np.any(indptr[1:] < indptr[:-1])` is false iff the list is sorted (non-decreasing) -/
+theorem ptrDecreases_false_iff : ∀ (p : List Int), ptrDecreases p = false ↔ p.Pairwise (· ≤ ·)
+  | [] => by simp [ptrDecreases]
+  | [a] => by simp [ptrDecreases]
+  | a :: b :: rest => by
+    have ih := ptrDecreases_false_iff (b :: rest)
+    rw [ptrDecreases, Bool.or_eq_false_iff, ih, List.pairwise_cons (l := b :: rest)]
+    constructor
+    · rintro ⟨hab, hp⟩
+      have hab' : a ≤ b := by simpa using hab
+      refine ⟨fun x hx => ?_, hp⟩
+      rcases List.mem_cons.mp hx with rfl | hx
+      · exact hab'
+      · exact Int.le_trans hab' ((List.pairwise_cons.mp hp).1 x hx)
+    · rintro ⟨hall, hp⟩
+      exact ⟨by simpa using hall b (by simp), hp⟩
 
 /-! ### the two constructors -/
 
@@ -149,22 +216,25 @@ theorem gcxsChecks_ok_iff (d : List α) (i p : List Int) (ca : Option (List Int)
     gcxsChecks d i p ca s = .ok () ↔ (∀ e ∈ s, 0 ≤ e) ∧ GcxsStruct s d i p ca := by
   have hlen : s ≠ [] ↔ 1 ≤ (s.length : Int) := by
     cases s <;> simp <;> omega
+  have h1len : s.length = 1 ↔ (s.length : Int) = 1 := by omega
+  have h2len : 2 ≤ s.length ↔ 2 ≤ (s.length : Int) := by omega
   unfold gcxsChecks GcxsStruct
   dsimp only
   cases ca with
   | some l =>
-    rw [gcxsCtorChecks_ok_iff, all_gcxsShapeEltOk_iff, hlen]
+    rw [gcxsCtorChecks_ok_iff, all_gcxsShapeEltOk_iff, hlen, h1len, h2len, minmax_inRange, minmax_inRange,
+      ptrDecreases_false_iff]
     constructor
-    · rintro ⟨h1, h2, h3⟩
-      refine ⟨h1, fun h => by exact_mod_cast h2 h, fun h => ?_⟩
-      obtain ⟨a, b, c⟩ := h3 (by exact_mod_cast h)
+    · rintro ⟨h1, h2, h3, h4⟩
+      refine ⟨h1, fun h => by exact_mod_cast h2 h, h4, fun h => ?_⟩
+      obtain ⟨a, b, c, hd, he⟩ := h3 h
       have hp : p ≠ [] := by
         intro hp
         subst hp
         have := rowsOf_nonneg s h1 l
         simp at a
         omega
-      refine ⟨l, rfl, a, ?_, ?_⟩
+      refine ⟨l, rfl, a, ?_, ?_, hd, he⟩
       · cases p with
         | nil => exact absurd rfl hp
         | cons x xs => simpa using b
@@ -172,39 +242,30 @@ theorem gcxsChecks_ok_iff (d : List α) (i p : List Int) (ca : Option (List Int)
         cases hq : p.getLast? with
         | none => exact absurd (List.getLast?_eq_none_iff.mp hq) hp
         | some v => rw [hq] at c; simpa using c
-    · rintro ⟨h1, h2, h3⟩
-      refine ⟨h1, fun h => by exact_mod_cast h2 h, fun h => ?_⟩
-      obtain ⟨l', hl, a, b, c⟩ := h3 (by exact_mod_cast h)
+    · rintro ⟨h1, h2, h4, h3⟩
+      refine ⟨h1, fun h => by exact_mod_cast h2 h, fun h => ?_, h4⟩
+      obtain ⟨l', hl, a, b, c, hd, he⟩ := h3 h
       simp only [Option.some.injEq] at hl
       subst hl
-      refine ⟨a, ?_, ?_⟩
+      refine ⟨a, ?_, ?_, hd, he⟩
       · rw [List.headD_eq_head?_getD, b]; rfl
       · rw [List.getLastD_eq_getLast?, c]; rfl
   | none =>
-    cases hc : Gen.gcxsCtorChecks 1 (s.all Gen.gcxsShapeEltOk) (min (s.length : Int) 1) d.length i.length 0 0 0 0 with
-    | error e =>
-      have hn := mt (gcxsCtorChecks_ok_iff _ _ _ _ _ _ _ _).mpr (by rw [hc]; simp)
-      rw [all_gcxsShapeEltOk_iff] at hn
+    by_cases h2d : 2 ≤ s.length
+    · rw [if_pos h2d]
       constructor
-      · intro h; exact absurd h (by simp)
-      · rintro ⟨h1, h2, _⟩
-        exfalso
-        apply hn
-        refine ⟨h1, fun h => by exact_mod_cast h2 (hlen.mpr (by omega)), fun h => by omega⟩
-    | ok u =>
-      obtain ⟨h1, h2, _⟩ := (gcxsCtorChecks_ok_iff _ _ _ _ _ _ _ _).mp hc
-      rw [all_gcxsShapeEltOk_iff] at h1
-      by_cases h2d : 2 ≤ s.length
-      · rw [if_pos h2d]
-        constructor
-        · intro h; exact absurd h (by simp)
-        · rintro ⟨_, _, h3⟩
-          obtain ⟨l, hl, _⟩ := h3 h2d
-          exact absurd hl (by simp)
-      · rw [if_neg h2d]
-        refine ⟨fun _ => ⟨h1, fun h => ?_, fun h => absurd h h2d⟩, fun _ => rfl⟩
-        have : (1 : Int) ≤ min (s.length : Int) 1 := by have := hlen.mp h; omega
-        exact_mod_cast h2 this
+      · intro h
+        rcases gcxsCtorChecksHead_cases 1 (s.all Gen.gcxsShapeEltOk) s.length d.length i.length with hc | hc <;>
+          rw [hc] at h <;> exact absurd h (by simp)
+      · rintro ⟨_, _, _, h3⟩
+        obtain ⟨l, hl, _⟩ := h3 (h2len.mpr (h2len.mp h2d))
+        exact absurd hl (by simp)
+    · rw [if_neg h2d, gcxsCtorChecks_ok_iff, all_gcxsShapeEltOk_iff, hlen, h1len, minmax_inRange i (s.headD 0)]
+      constructor
+      · rintro ⟨h1, h2, _, h4⟩
+        exact ⟨h1, fun h => by exact_mod_cast h2 h, h4, fun h => absurd h h2d⟩
+      · rintro ⟨h1, h2, h4, _⟩
+        exact ⟨h1, fun h => by exact_mod_cast h2 h, fun h => absurd (h2len.mpr h) h2d, h4⟩
 
 theorem gcxsChecks_err (d : List α) (i p : List Int) (ca : Option (List Int)) (s : List Int) (e : Err)
     (h : gcxsChecks d i p ca s = .error e) : e = .value ∨ (e = .type ∧ ca = none ∧ 2 ≤ s.length) := by
@@ -212,20 +273,23 @@ theorem gcxsChecks_err (d : List α) (i p : List Int) (ca : Option (List Int)) (
   | some l =>
     unfold gcxsChecks at h
     dsimp only at h
-    rcases gcxsCtorChecks_cases 1 (s.all Gen.gcxsShapeEltOk) s.length d.length i.length p.length (rowsOf s l)
-      (p.headD 0) (p.getLastD 0) with hc | hc
+    rcases gcxsCtorChecks_cases 1 1 (s.all Gen.gcxsShapeEltOk) (ptrDecreases p) s.length (s.headD 0) d.length i.length p.length
+      (rowsOf s l) (colsOf s l) (p.headD 0) (p.getLastD 0) (listMin i) (listMax i) with hc | hc
     · rw [hc] at h; exact absurd h (by simp)
     · rw [hc] at h; simp only [Except.error.injEq] at h; exact Or.inl h.symm
   | none =>
     unfold gcxsChecks at h
     dsimp only at h
-    rcases gcxsCtorChecks_cases 1 (s.all Gen.gcxsShapeEltOk) (min (s.length : Int) 1) d.length i.length 0 0 0 0 with hc | hc
-    · rw [hc] at h
-      dsimp only at h
-      by_cases h2 : 2 ≤ s.length
-      · rw [if_pos h2] at h; simp only [Except.error.injEq] at h; exact Or.inr ⟨h.symm, rfl, h2⟩
-      · rw [if_neg h2] at h; exact absurd h (by simp)
-    · rw [hc] at h; simp only [Except.error.injEq] at h; exact Or.inl h.symm
+    by_cases h2 : 2 ≤ s.length
+    · rw [if_pos h2] at h
+      rcases gcxsCtorChecksHead_cases 1 (s.all Gen.gcxsShapeEltOk) s.length d.length i.length with hc | hc
+      · rw [hc] at h; simp only [Except.error.injEq] at h; exact Or.inr ⟨h.symm, rfl, h2⟩
+      · rw [hc] at h; simp only [Except.error.injEq] at h; exact Or.inl h.symm
+    · rw [if_neg h2] at h
+      rcases gcxsCtorChecks_cases 1 1 (s.all Gen.gcxsShapeEltOk) false s.length (s.headD 0) d.length i.length 0 0 0 0 0
+        (listMin i) (listMax i) with hc | hc
+      · rw [hc] at h; exact absurd h (by simp)
+      · rw [hc] at h; simp only [Except.error.injEq] at h; exact Or.inl h.symm
 
 /-- `check_compressed_axes` passes iff the axes are `None` or a non-empty, admissible list of in-range axes
 that does not name every dimension -/
